@@ -32,7 +32,20 @@ BODIES = {
 ANSI = re.compile(r"\x1b\[[0-9;]*m")
 
 
+# several kinds of fatally unparsable text (they stop in different functions: the registry's
+# unrecognised-token check, skip_nest, the directive dispatch, the #if expression parser)
+FATAL_FLAVOURS = [
+    BODIES["fatal"],                                                      # f2_fatal.c
+    "\n#if (VERSION > 2\n# define A 1\n#endif\n",                      # f3_fatal.c (longer sequences)
+    "\nint\tmain(void)\n{\n\tfoo(\n",                                 # f0_fatal.c
+    "\n#bogus\n\nint\tmain(void)\n{\n\treturn (0);\n}\n",          # f1_fatal.c
+]
+
+
 def content(cls, name):
+    if cls == "fatal":
+        k = sum(ord(ch) for ch in name) % len(FATAL_FLAVOURS)
+        return HEADER.format(name=name) + FATAL_FLAVOURS[k]
     return HEADER.format(name=name) + BODIES[cls]
 
 
@@ -162,9 +175,32 @@ def op_one(task):
     return {"violations": [m] if m else []}
 
 
+def op_fatal_texts(task):
+    """texts that the library run stops with the fatal parse error: through the real command line
+    each must print the fatal diagnostic, no `OK!`, and exit non-zero"""
+    viol = []
+    d = tempfile.mkdtemp(prefix="c07_")
+    try:
+        for k, (name, text) in enumerate(task["files"]):
+            sub = os.path.join(d, str(k))
+            os.makedirs(sub)
+            with open(os.path.join(sub, name), "w") as fh:
+                fh.write(text)
+            rc, out, err = run_cli([name], sub)
+            plain = ANSI.sub("", out)
+            if "Traceback" in err:
+                continue            # internal exceptions are C05's business
+            if rc == 0 or f"{name}: OK!" in plain:
+                viol.append({"what": f"unrecognisable text is fatal for the library run, but the command line exits {rc} "
+                                     f"and prints {plain.strip().splitlines()[:2]}", "k": k, "name": name, "text": text})
+    finally:
+        shutil.rmtree(d, ignore_errors=True)
+    return {"cases": len(task["files"]), "violations": viol}
+
+
 def main():
     task = json.load(sys.stdin)
-    out = {"search": op_search, "one": op_one,
+    out = {"search": op_search, "one": op_one, "fatal_texts": op_fatal_texts,
            "same_content": lambda t: {"violations": [m for m in [check_same_content_headers(tuple(t["order"]))] if m]}}[task["op"]](task)
     json.dump(out, sys.stdout)
 
